@@ -1,14 +1,14 @@
 package main
 
 import (
-	"strconv"
 	"fmt"
-	"os"
-	"regexp"
 	"go/ast"
 	"go/token"
 	"go/types"
+	"os"
+	"regexp"
 	"sort"
+	"strconv"
 	"strings"
 
 	"golang.org/x/tools/go/ssa"
@@ -130,52 +130,52 @@ type retInfo struct {
 }
 
 type loopInfo struct {
-	header *ssa.BasicBlock
-	body   map[*ssa.BasicBlock]bool
-	anchor string // source text of the loop statement's first line
-	decr   []*Clause
-	pos    token.Pos
+	header  *ssa.BasicBlock
+	body    map[*ssa.BasicBlock]bool
+	anchor  string // source text of the loop statement's first line
+	decr    []*Clause
+	pos     token.Pos
 	bodyPos token.Pos
-	invs   []*Clause
-	phiHav map[*ssa.Phi]Val
-	headSt *State // state at the loop head of the current symbolic iteration (after havoc)
+	invs    []*Clause
+	phiHav  map[*ssa.Phi]Val
+	headSt  *State // state at the loop head of the current symbolic iteration (after havoc)
 	entrySt *State // state when the loop was entered (before havoc), for atEntry(e)
 }
 
 type Frame struct {
-	g       *Gen
-	fn      *ssa.Function
-	id      string
-	key     string
-	vals    map[ssa.Value]Val
-	fc      *FuncContract
-	top     bool
-	depth   int
-	defers  []deferEntry
-	params  map[string]Val
-	old     *State
-	rets    []retInfo
-	loops   map[*ssa.BasicBlock]*loopInfo
-	parent  *Frame
-	free    []Val
-	callIdx map[string]int
-	panics  []string
-	noPanic bool
-	reach   map[*ssa.BasicBlock]string
-	exit    map[*ssa.BasicBlock]*State
-	curBlk  *ssa.BasicBlock
-	curReach string
-	curSt    *State
-	curPos   token.Pos // position of the instruction being executed (for an inlining caller: the call)
-	closures []*Closure // closures created in this frame (their captured state may be touched when they escape)
+	g         *Gen
+	fn        *ssa.Function
+	id        string
+	key       string
+	vals      map[ssa.Value]Val
+	fc        *FuncContract
+	top       bool
+	depth     int
+	defers    []deferEntry
+	params    map[string]Val
+	old       *State
+	rets      []retInfo
+	loops     map[*ssa.BasicBlock]*loopInfo
+	parent    *Frame
+	free      []Val
+	callIdx   map[string]int
+	panics    []string
+	noPanic   bool
+	reach     map[*ssa.BasicBlock]string
+	exit      map[*ssa.BasicBlock]*State
+	curBlk    *ssa.BasicBlock
+	curReach  string
+	curSt     *State
+	curPos    token.Pos                // position of the instruction being executed (for an inlining caller: the call)
+	closures  []*Closure               // closures created in this frame (their captured state may be touched when they escape)
 	jointExit map[*ssa.BasicBlock]bool // returning blocks whose [rundefers; loads; return] tail is executed once after merging
 	jointSts  []*State
 	jointGs   []string
 	jointBlk  *ssa.BasicBlock
-	objs     []*types.Var
-	objSeen  map[*types.Var]bool
-	allocOf  map[types.Object]*ssa.Alloc // address-taken source variables and their cells
-	freeOf   map[types.Object]*ssa.FreeVar // captured source variables (closures): resolved through the captured cell
+	objs      []*types.Var
+	objSeen   map[*types.Var]bool
+	allocOf   map[types.Object]*ssa.Alloc   // address-taken source variables and their cells
+	freeOf    map[types.Object]*ssa.FreeVar // captured source variables (closures): resolved through the captured cell
 }
 
 func (g *Gen) newFrame(fn *ssa.Function, parent *Frame) *Frame {
@@ -263,7 +263,7 @@ func (g *Gen) loopAnchors(fn *ssa.Function, loops map[*ssa.BasicBlock]*loopInfo)
 	}
 	type lp struct {
 		pos, end, body token.Pos
-		text     string
+		text           string
 	}
 	var all []lp
 	ast.Inspect(syn, func(n ast.Node) bool {
@@ -333,11 +333,11 @@ func (g *Gen) srcText(from, to token.Pos) string {
 // Heap / cell access on states (with write tracking)
 
 type writeSet struct {
-	heaps map[string]bool            // heaps written
-	bases map[string]map[string]bool // heap -> loop-invariant base refs written (when not `all`)
-	all   map[string]bool            // heap written at a base that is not loop invariant
-	cells map[string]bool
-	start int // value of the fresh counter when the dry run began
+	heaps    map[string]bool            // heaps written
+	bases    map[string]map[string]bool // heap -> loop-invariant base refs written (when not `all`)
+	all      map[string]bool            // heap written at a base that is not loop invariant
+	cells    map[string]bool
+	start    int // value of the fresh counter when the dry run began
 	allocSet map[string]bool
 }
 
@@ -1063,7 +1063,7 @@ func (g *Gen) enterLoop(fr *Frame, li *loopInfo, st *State, r string, order []*s
 		}
 		entryVal := fr.vals[phi]
 		v := g.freshVal(fr.id+"loop_"+phi.Comment, phi.Type())
-		if (phi.Comment == "rangeindex" || phi.Comment == "rangeint.iter") {
+		if phi.Comment == "rangeindex" || phi.Comment == "rangeint.iter" {
 			g.vc.assume("", fmt.Sprintf("(>= %s (- 1))", v.T))
 		}
 		_ = entryVal
@@ -1124,7 +1124,12 @@ func (g *Gen) enterLoop(fr *Frame, li *loopInfo, st *State, r string, order []*s
 		if os.Getenv("GOVC_DEBUG") != "" {
 			fmt.Fprintf(os.Stderr, "assume inv %s dry=%d: %v %v\n", inv.Name, g.dry, truncate(v, 200), err)
 			for o, sv := range st.src {
-				fmt.Fprintf(os.Stderr, "   src %s addr=%v T=%s ptr=%v cellval=%v\n", o.Name(), st.srcAddr[o], truncate(sv.T, 40), sv.Ptr != nil, func() string { if sv.Ptr != nil { return st.cells[sv.Ptr.Cell].T }; return "" }())
+				fmt.Fprintf(os.Stderr, "   src %s addr=%v T=%s ptr=%v cellval=%v\n", o.Name(), st.srcAddr[o], truncate(sv.T, 40), sv.Ptr != nil, func() string {
+					if sv.Ptr != nil {
+						return st.cells[sv.Ptr.Cell].T
+					}
+					return ""
+				}())
 			}
 		}
 		if err != nil {
